@@ -278,6 +278,33 @@ EXEC_GROUPS_F08 = [
 ]
 
 
+_HARVEST = None
+
+
+def harvest_single(std):
+    """Single-line statements harvested from fparser's own tests that the parser accepts
+    anywhere inside a subprogram (see tools/harvest.py), for the given standard."""
+    global _HARVEST
+    if _HARVEST is None:
+        import json
+        import os
+
+        path = os.path.join(os.path.dirname(__file__), "zoo_harvest.json")
+        _HARVEST = {"f2003": [], "f2008": []}
+        if os.path.exists(path):
+            with open(path) as fobj:
+                data = json.load(fobj)
+            for ent in data.get("exec", []):
+                if len(ent["lines"]) == 1 and ent.get("after_exec") and ent.get("in_construct"):
+                    text = ent["lines"][0]
+                    if text.lower().startswith(("end", "contains", "else", "case", "entry")):
+                        continue
+                    _HARVEST["f2008"].append(text)
+                    if ent["std"] == "f2003":
+                        _HARVEST["f2003"].append(text)
+    return _HARVEST[std if std in _HARVEST else "f2003"]
+
+
 def tokens(text):
     return [t for t in damage.tokenize(text) if t.strip()]
 
